@@ -20,11 +20,14 @@ pub struct BuildOpts {
     /// rolled back, the fault is withdrawn and THE SAME builder value builds again in the caller's transaction
     #[serde(default)]
     pub retry_same_builder: bool,
+    /// before the transaction of this build starts, the LMDB map is resized to (pages in use + this many) pages
+    #[serde(default)]
+    pub map_free_pages: Option<usize>,
 }
 
 impl Default for BuildOpts {
     fn default() -> Self {
-        BuildOpts { n_trees: None, split_after: None, mem: None, threads: 1, seed: 42, cancel_at: None, tmpdir: None, retry_same_builder: false }
+        BuildOpts { n_trees: None, split_after: None, mem: None, threads: 1, seed: 42, cancel_at: None, tmpdir: None, retry_same_builder: false, map_free_pages: None }
     }
 }
 
